@@ -41,7 +41,11 @@ pub enum RKind {
 #[derive(Clone, Debug, Serialize, Deserialize)]
 pub enum IOp {
     Request { client: usize, id: u16, dst: usize, seq: u16, ttl: u8, size: u16 },
-    /// answers the n-th Request op of the plan
+    /// 2-4 records of one client written as one byte stream, cut at arbitrary offsets
+    /// (a cut may fall inside a record while the next piece carries the rest and more);
+    /// each member counts as a request for `Reply::req`: (id, dst, seq, ttl, size)
+    Burst { client: usize, reqs: Vec<(u16, usize, u16, u8, u16)>, cuts: Vec<usize> },
+    /// answers the n-th request of the plan (members of a Burst count one each)
     Reply { req: usize, kind: RKind, from_router: bool, outer_ihl: u8 },
     Garbage { v4: bool, shape: u8, len: usize },
     Wait { pct: u64 },
@@ -125,6 +129,21 @@ impl Scenario for Icmp {
                     });
                     n_req += 1;
                 }
+                9 => {
+                    let client = rng.usize_below(n_clients);
+                    let n = 2 + rng.usize_below(3);
+                    let id = *rng.pick(&ids);
+                    let reqs: Vec<(u16, usize, u16, u8, u16)> = (0..n)
+                        .map(|_| {
+                            next_seq[client] = next_seq[client].wrapping_add(1);
+                            (id, rng.usize_below(DSTS.len()), next_seq[client], *rng.pick(&[1u8, 64, 255]), rng.size(0, 1_400) as u16)
+                        })
+                        .collect();
+                    let total = 23 * n;
+                    let cuts = (0..rng.usize_below(4)).map(|_| 1 + rng.usize_below(total - 1)).collect();
+                    ops.push(IOp::Burst { client, reqs, cuts });
+                    n_req += n;
+                }
                 4..=6 if n_req > 0 => {
                     let req = if rng.chance(2, 3) { n_req - 1 } else { rng.usize_below(n_req) };
                     let kind = match rng.below(12) {
@@ -201,6 +220,8 @@ impl Scenario for Icmp {
 pub struct SentEcho {
     pub op: usize,
     pub client: usize,
+    /// what was asked for: (id, index into DSTS, seq, ttl, size)
+    pub want: (u16, usize, u16, u8, u16),
     pub at: u64,
     /// what the raw socket was given (None: nothing left the endpoint within a second)
     pub wire: Option<world::IcmpSent>,
@@ -646,7 +667,7 @@ async fn run(plan: IPlan) -> Obs {
                 sleep_us(300).await;
                 let (wire, extra) = world::with(|w| (w.icmp_sent.get(before).cloned(), w.icmp_sent.len().saturating_sub(before + 1)));
                 req_ops.push(obs.sent.len());
-                obs.sent.push(SentEcho { op: k, client, at: wire.as_ref().map(|w| w.t_us).unwrap_or(at), wire, extra_packets: extra });
+                obs.sent.push(SentEcho { op: k, client, want: (id, dst, seq, ttl, size), at: wire.as_ref().map(|w| w.t_us).unwrap_or(at), wire, extra_packets: extra });
                 if probe {
                     let s = obs.sent.last().unwrap().clone();
                     if let Some(w) = &s.wire {
@@ -660,6 +681,50 @@ async fn run(plan: IPlan) -> Obs {
                     } else {
                         obs.probe_ok = Some(false);
                     }
+                }
+            }
+            IOp::Burst { client, reqs, cuts } => {
+                let mut stream = Vec::new();
+                for (id, dst, seq, ttl, size) in &reqs {
+                    stream.extend(request_record(*id, DSTS[*dst].parse().unwrap(), *seq, *ttl, *size));
+                }
+                let before = world::with(|w| w.icmp_sent.len());
+                let at = world::now_us();
+                let mut cuts = cuts.clone();
+                cuts.sort();
+                cuts.dedup();
+                let mut from = 0;
+                for c in cuts.iter().chain(std::iter::once(&stream.len())) {
+                    if *c > from && *c <= stream.len() {
+                        let _ = clients[client].tx.send(&stream[from..*c]).await;
+                        sleep_us(150).await;
+                        from = *c;
+                    }
+                }
+                // requests to an address family without a socket are dropped, the others leave in order
+                let expected: usize = reqs.iter().filter(|r| plan.ipv6 || DSTS[r.1].parse::<IpAddr>().unwrap().is_ipv4()).count();
+                for _ in 0..expected {
+                    let have = world::with(|w| w.icmp_sent.len());
+                    if have >= before + expected {
+                        break;
+                    }
+                    let _ = tokio::time::timeout(Duration::from_millis(50), world::icmp_sent_after(have)).await;
+                }
+                sleep_us(300).await;
+                let got: Vec<world::IcmpSent> = world::with(|w| w.icmp_sent[before.min(w.icmp_sent.len())..].to_vec());
+                let mut next = 0usize;
+                for (n, r) in reqs.iter().enumerate() {
+                    let sendable = plan.ipv6 || DSTS[r.1].parse::<IpAddr>().unwrap().is_ipv4();
+                    let wire = if sendable {
+                        let w = got.get(next).cloned();
+                        next += 1;
+                        w
+                    } else {
+                        None
+                    };
+                    let extra = if n + 1 == reqs.len() { got.len().saturating_sub(next.max(expected)) } else { 0 };
+                    req_ops.push(obs.sent.len());
+                    obs.sent.push(SentEcho { op: k, client, want: *r, at: wire.as_ref().map(|w| w.t_us).unwrap_or(at), wire, extra_packets: extra });
                 }
             }
             IOp::Reply { req, kind, from_router, outer_ihl } => {
@@ -722,16 +787,7 @@ fn judge(plan: &IPlan, o: &Obs, out: &mut Outcome) {
 
     // ---- every request leaves as one faithful echo -------------------------------------
     for s in &o.sent {
-        let probe = s.op == plan.ops.len();
-        let (client, id, dst, seq, ttl, size) = if probe {
-            (0usize, 0x7e57u16, 0usize, 0x7e57u16, 64u8, 8u16)
-        } else {
-            match &plan.ops[s.op] {
-                IOp::Request { client, id, dst, seq, ttl, size } => (*client, *id, *dst, *seq, *ttl, *size),
-                _ => continue,
-            }
-        };
-        let _ = client;
+        let (id, dst, seq, ttl, size) = s.want;
         let dst_ip: IpAddr = DSTS[dst].parse().unwrap();
         let v4 = dst_ip.is_ipv4();
         let fam = if v4 { "v4" } else { "v6" };
